@@ -154,7 +154,7 @@ def fb(ctx):
                                 tr |= set(lab_.split('|'))
                         selfp = tr == {'ConstSelf', 'MutSelf'}
             it = strip(expand(f, c[2][0]))
-            over = not any(re.search(r'Iterator::(rev|skip|take|filter|step_by|chain)$', c_[3]) for c_ in calls_in(it)) and \
+            over = not any(re.search(r'Iterator::(rev|skip|take|filter|step_by|chain|map_while|scan|take_while|skip_while|fuse|cycle)$', c_[3]) for c_ in calls_in(it)) and \
                 any(strip(unwrap_all(x_)) in (strip(unwrap_all(F['arguments'])), strip(unwrap_all(expand(f, F['arguments'])))) for x_ in walk(it) if isinstance(x_, tuple) and x_)
             if selfp and over:
                 return ('receiver', (lab is True) != neg)
@@ -191,7 +191,7 @@ def fb(ctx):
     u = unwrap_all(args)
     oka = is_call(u, 'Iterator::collect') and is_call(u[2][0], 'Iterator::map') and is_call(u[2][0][2][0], 'slice::<impl [T]>::iter') and \
         strip(strip(u[2][0][2][0][2][0])) == ('field', GA, 'arguments') or (is_call(u, 'Iterator::collect') and any(strip(x) == ('field', GA, 'arguments') for x in walk(u)) and not any(
-            re.search(r'Iterator::(rev|skip|take|filter|step_by|chain)$', c_[1]) for c_ in calls_in(u)))
+            re.search(r'Iterator::(rev|skip|take|filter|step_by|chain|map_while|scan|take_while|skip_while|fuse|cycle)$', c_[1]) for c_ in calls_in(u)))
     ctx.ob(['C05', 'C04'], 'R-ITER', 'FB|arguments-in-order', bool(oka), 'semantic arguments are the grammar arguments mapped one to one in declaration order: %s' % show(u)[:160], where)
 
 
@@ -507,7 +507,7 @@ def attribute_scans(ctx):
             elif 'enum_definition' in fid_:
                 tags = ['C08', 'C17', 'C15']
             elif 'function::build' in fid_:
-                tags = ['C05', 'C16', 'C04']
+                tags = ['C05', 'C16', 'C04', 'C20']
             elif 'vftable' in fid_:
                 tags = ['C04', 'C20']
             elif 'add_module' in fid_:
@@ -545,7 +545,7 @@ def attribute_scans(ctx):
                     fe = f.expr_of_call(cf_['term'])
                     if len(fe[2]) == 3 and fe[2][2][0] == 'closure' and fe[2][2][1] == g.id:
                         src_ = expand(f, fe[2][0])
-                        per_item = not any(re.search(r'Iterator::(rev|skip|take|step_by|skip_while|take_while)$', c_[3]) for c_ in calls_in(src_))
+                        per_item = not any(re.search(r'Iterator::(rev|skip|take|step_by|skip_while|take_while|map_while|scan|fuse|cycle)$', c_[3]) for c_ in calls_in(src_))
                         in_chain = bool(find_calls(src_, 'string_literal')) or any(
                             isinstance(y, tuple) and y and y[0] == 'closure' and y[1] in P.fns and any(find_calls(expand(P.fns[y[1]], x_['expr']), 'string_literal') for x_ in P.fns[y[1]].exits())
                             for y in walk(src_))
